@@ -31,9 +31,11 @@ func Run(ctx *common.Ctx) {
 	}
 	nHist, nNative, nBridge := 220, 150, 200
 	nMulti := 120
+	nStore := 40
 	if ctx.Thorough() {
 		nHist, nNative, nBridge = 5000, 3000, 4000
 		nMulti = 2500
+		nStore = 1500
 	}
 	h.checkOjgTables()
 	h.textStream(nText)
@@ -41,13 +43,14 @@ func Run(ctx *common.Ctx) {
 	h.parseStream(nParse)
 	h.multiStream(nMulti)
 	h.pathStream(nHist)
+	h.storeStream(nStore)
 	h.nativeStream(nNative)
 	h.bridgeStream(nBridge)
 	h.floatStream()
 	ctx.Meta.DistinctNontrivial = len(h.distinct)
-	ctx.Meta.Rule = "documents of depth <= 5 (null, booleans, int64 incl. the limits, json.Number integers and decimals, float64, strings: plain, needing quotes or escapes, control characters, non-ASCII incl. U+2028/U+2029/U+FFFD and 4-byte runes, long, token-like, invalid UTF-8; empty containers) written with 3 of 20 bag-write option sets each and parsed back through one of 6 entry points; documents spelled by the harness in SEN/JSON with random white space, quotes, escapes and duplicate keys; inputs with 0..4 such documents given to json-parse (string, octets, streams read in chunks of 1..9 bytes) with a function or channel receiver that keeps the bags; distinct = distinct (document, options) / texts"
-	header := "From Coq Require Import List ZArith NArith Strings.Byte String.\nFrom C18 Require Import Tables Model Spec ModelPath ModelBridge SpecPath Corr.\nImport ListNotations.\nOpen Scope Z_scope.\n"
-	footer := "Definition res := Eval vm_compute in check_all cases.\nPrint res.\nDefinition gcount := Eval vm_compute in guard_count cases.\nPrint gcount.\nDefinition outside_broken := Eval vm_compute in outside_guard_broken cases.\nPrint outside_broken.\n"
+	ctx.Meta.Rule = "documents of depth <= 5 (null, booleans, int64 incl. the limits, json.Number integers and decimals, float64, strings: plain, needing quotes or escapes, control characters, non-ASCII incl. U+2028/U+2029/U+FFFD and 4-byte runes, long, token-like, invalid UTF-8; empty containers) written with 3 of 20 bag-write option sets each and parsed back through one of 6 entry points; documents spelled by the harness in SEN/JSON with random white space, quotes, escapes and duplicate keys; inputs with 0..4 such documents given to json-parse (string, octets, streams read in chunks of 1..9 bytes) with a function or channel receiver that keeps the bags; histories of bag-parse / bag-set calls on 2..3 bags that are all kept, every bag read after every call: ALL 400 ordered pairs over 5 targets (bag 0 whole / at a / at c, bag 1 whole / at k) x 4 texts (object, object>array>object, array of objects, arrays only) plus random histories of 3..6 calls; distinct = distinct (document, options) / texts"
+	header := "From Coq Require Import List ZArith NArith Strings.Byte String.\nFrom C18 Require Import Tables Model Spec ModelPath ModelBridge SpecPath ModelStore SpecStore Corr.\nImport ListNotations.\nOpen Scope Z_scope.\n"
+	footer := "Definition res := Eval vm_compute in check_all cases.\nPrint res.\nDefinition gcount := Eval vm_compute in guard_count cases.\nPrint gcount.\nDefinition outside_broken := Eval vm_compute in outside_guard_broken cases.\nPrint outside_broken.\nDefinition store_kept := Eval vm_compute in store_frames_kept cases.\nPrint store_kept.\n"
 	ctx.WriteShards("cases", header, "case", footer, h.terms, h.descs, 16)
 	ctx.ReplayKnownLisp()
 	h.replayKnownGo()
